@@ -17,6 +17,7 @@ func runC16(c *core.Ctx) {
 	h.oneActionPerEntry("C16.2b no-membership-action")
 	c.Clause("C16.3 success means the term advanced")
 	h.transferReplyMeaning("C16.3 reply-meaning")
+	h.transferTimeoutAnswers("C16.3b transfer-timeout-answers")
 	c.Clause("C16.4 permission to disrupt originates only from a timeout-now")
 	h.disruptPermission("C16.4 disrupt-permission")
 	h.leaderYields("C16.4b timeout-now-voter-gated")
